@@ -18,11 +18,14 @@ impl Rd {
 }
 pub struct Wr { pub out: Ghost<Seq<u8>> }
 pub uninterp spec fn enc32(v: u32) -> Seq<u8>;
+pub uninterp spec fn enc64(v: u64) -> Seq<u8>;
 // decoding what was encoded (byteorder round trip of one little-endian word)
 #[verifier::external_body] pub proof fn ax_le32(pre: Seq<u8>, v: u32, post: Seq<u8>) ensures le32(pre + enc32(v) + post, pre.len() as int) == v, enc32(v).len() == 4 { }
 impl Wr {
     #[verifier::external_body] pub fn write_u32<E>(&mut self, v: u32) -> (r: IoResult<()>) ensures r.is_ok() ==> final(self).out@ == old(self).out@ + enc32(v) { unimplemented!() }
     #[verifier::external_body] pub fn write_all(&mut self, b: &[u8; 32]) -> (r: IoResult<()>) ensures r.is_ok() ==> final(self).out@ == old(self).out@ + b@ { unimplemented!() }
+    #[verifier::external_body] pub fn write_u64<E>(&mut self, v: u64) -> (r: IoResult<()>) ensures r.is_ok() ==> final(self).out@ == old(self).out@ + enc64(v) { unimplemented!() }
+    #[verifier::external_body] pub fn write_bytes(&mut self, b: &[u8]) -> (r: IoResult<()>) ensures r.is_ok() ==> final(self).out@ == old(self).out@ + b@ { unimplemented!() }
 }
 pub struct MatZnx<D> { pub d: D, pub shape: Ghost<int>, pub content: Ghost<Seq<u8>> }
 pub uninterp spec fn mat_len(s: Seq<u8>, pos: int) -> int;
